@@ -111,15 +111,15 @@ SPELLINGS = ["none", "classification", "regression", "CLASSIFICATION", "REGRESSI
 def gen_select_case(rng):
     method = rng.choice(["Occlusion", "Saliency", "GradientInput"])
     d = rng.randint(2, 6)
-    ncls = rng.randint(1, 3)
-    n = rng.randint(1, 3)
+    ncls = rng.choice([1, 1, 2, 3])        # single-output models (regression / one logit): (N, 1) predictions and targets
+    n = rng.choice([1, 2, 2, 3])
     wrapping = rng.choice(["numpy", "tfmodule"]) if method == "Occlusion" else rng.choice(["tfmodule", "keras"])
     # the named task operators are TensorFlow functions: they call model(inputs) on symbolic tensors, so a NumPy
     # callable can only be combined with the default operator or with a custom operator written for it
     spelling = rng.choice(["none", "none", "custom_sq"]) if wrapping == "numpy" else rng.choice(SPELLINGS)
     return dict(stream="select", method=method, spelling=spelling, d=d, wrapping=wrapping,
                 params=fam.gen_fquad(rng, ncls, d), xs=[fam.dyadic(rng, d) for _ in range(n)], ts=fam.gen_targets(rng, n, ncls),
-                bs=rng.choice([1, 2, None]), patch=rng.randint(1, d), stride=rng.randint(1, d))
+                bs=rng.choice([1, 2, None, None]), patch=rng.randint(1, d), stride=rng.randint(1, d))
 
 
 def gen_olayer_case(rng):
@@ -179,10 +179,10 @@ def gen_gradcam_op_case(rng):
 def generate(rng, tier):
     cases = gen_dispatch()
     cases += [gen_gradcam_op_case(rng) for _ in range(3 if tier == "quick" else 12)]
-    n = 66 if tier == "quick" else 700
+    n = 80 if tier == "quick" else 800
     for _ in range(n):
         r = rng.random()
-        cases.append(gen_operator_case(rng) if r < 0.42 else gen_select_case(rng) if r < 0.65 else gen_olayer_case(rng))
+        cases.append(gen_operator_case(rng) if r < 0.36 else gen_select_case(rng) if r < 0.68 else gen_olayer_case(rng))
     return cases
 
 
